@@ -40,22 +40,20 @@ Lemma active_set_run_witness :
 Proof. repeat split; vm_compute; reflexivity. Qed.
 
 (* ---------------------------------------------------------------------------------------------- *)
-(* fista: the stopping rule |sum(x - x_new)| < tol * norm_0 fires on a step whose entries sum to zero.
+(* fista: regression of the former stopping-rule defect (before /repo f4b2876 the rule was |sum(x - x_new)| < tol * norm_0).
    UtU = [[2,1],[1,2]], UtM = (6,3), defaults (x0 = 0, non_negative, no penalties, lr = 1/3 = 1/sigma_max, tol = 1e-8,
-   epsilon = 0): the second step is (1/3, -1/3); the loop stops after two iterations whatever the rest of the
-   momentum sequence and the budget, at (7/3, 2/3), where the gradient is (-2/3, 2/3): not a fixed point of the
-   projected step, not KKT; the optimum is (3, 0).  Executed at the rational instance. *)
+   epsilon = 0): the second step is (-1/3, 1/3), its signed sum is 0 and the old loop stopped at (7/3, 2/3) (gradient
+   (-2/3, 2/3), not KKT; optimum (3, 0)).  The repaired quantity is the l1 norm 2/3 of that step, far above
+   tol * norm_0 = 3e-8, and a three-iteration run moves on.  Executed at the rational instance. *)
 Definition fw_UtU : list (list Q) := [[2; 1]; [1; 2]]%Q.
 Definition fw_UtM : list (list Q) := [[6]; [3]]%Q.
 Definition fw_tol : Q := (1 # 100000000)%Q.
 Lemma fista_stop_rule_witness :
-  (forall (b : Q) (rest : list Q),
-     fista Qops fw_UtM fw_UtU 1 true 0 0 (1 # 3) fw_tol 0 [[0]; [0]]%Q (0%Q :: b :: rest) = [[7 # 3]; [2 # 3]]%Q) /\
-  fista_grad Qops fw_UtM fw_UtU 1 0 0 [[7 # 3]; [2 # 3]]%Q = [[-2 # 3]; [2 # 3]]%Q /\
-  fista_new Qops fw_UtM fw_UtU 1 true 0 0 (1 # 3) 0 [[7 # 3]; [2 # 3]]%Q = [[23 # 9]; [4 # 9]]%Q /\
+  fista Qops fw_UtM fw_UtU 1 true 0 0 (1 # 3) fw_tol 0 [[0]; [0]]%Q [0%Q] = [[2]; [1]]%Q /\
+  fista Qops fw_UtM fw_UtU 1 true 0 0 (1 # 3) fw_tol 0 [[0]; [0]]%Q [0%Q; 0%Q] = [[7 # 3]; [2 # 3]]%Q /\
+  fista_nrm Qops [[2]; [1]]%Q [[7 # 3]; [2 # 3]]%Q = (2 # 3)%Q /\
+  fista Qops fw_UtM fw_UtU 1 true 0 0 (1 # 3) fw_tol 0 [[0]; [0]]%Q [0%Q; 0%Q; 0%Q] = [[23 # 9]; [4 # 9]]%Q /\
   (* the optimum is a fixed point of the projected step and its gradient vanishes *)
   fista_new Qops fw_UtM fw_UtU 1 true 0 0 (1 # 3) 0 [[3]; [0]]%Q = [[3]; [0]]%Q /\
   fista_grad Qops fw_UtM fw_UtU 1 0 0 [[3]; [0]]%Q = [[0]; [0]]%Q.
-Proof.
-  split; [intros b rest; vm_compute; reflexivity|]. repeat split; vm_compute; reflexivity.
-Qed.
+Proof. repeat split; vm_compute; reflexivity. Qed.
